@@ -3,7 +3,7 @@
     (same answer for the same operation; malformed envelopes refused, nothing executed).
     Executable only (extracted / vm_compute). *)
 From Coq Require Import List NArith ZArith Bool String.
-From ApiFu Require Import Base.Sexp Transport.EnvelopeModel Transport.JsonText Transport.EnvelopeSpec Transport.WireModel Transport.FrameText Transport.InitModel Transport.EnvelopeCompose.
+From ApiFu Require Import Base.Sexp Transport.EnvelopeModel Transport.JsonText Transport.EnvelopeSpec Transport.WireModel Transport.FrameText Transport.InitModel Transport.EnvelopeCompose Transport.StreamModel.
 Import ListNotations.
 Open Scope string_scope.
 
@@ -73,8 +73,18 @@ Definition dec_num (s : sexp) : option (bytes * option N) :=
   end.
 Definition num_find (NT : ntable) (t : bytes) : option (option N) :=
   match find (fun e => bytes_eqb (fst e) t) NT with Some (_, v) => Some v | None => None end.
+(** integer tokens below 2^53 are converted by the model itself ([JsonText.int_bits]); the table
+    (strconv.ParseFloat) answers for the others, and must agree on the integers ([nums_agree]) *)
 Definition numval_of (NT : ntable) (t : bytes) : option N :=
-  match num_find NT t with Some v => v | None => None end.
+  match int_bits t with
+  | Some b => Some b
+  | None => match num_find NT t with Some v => v | None => None end
+  end.
+Definition nums_agree (NT : ntable) : bool :=
+  forallb (fun e => match int_bits (fst e) with
+                    | Some b => match snd e with Some b' => N.eqb b b' | None => false end
+                    | None => true
+                    end) NT.
 Definition tbl_parse (fl : flavour) (NT : ntable) (t : bytes) : jparse := parse_json fl (numval_of NT) t.
 
 (** [early]: the request body ended before the announced Content-Length (net/http reports
@@ -113,11 +123,26 @@ Definition dec_env (s : sexp) : option env :=
         end
       else if String.eqb t "ws" then dec_ws a1 a2 a3
       else None
-  | Some (t, [a1; a2; SL ps; a4; fl]) =>
-      if String.eqb t "http" && is_sym "ends-early" fl then
-        match as_bytes a1, as_bytes a2, map_opt dec_pair ps, as_bytes a4 with
-        | Some m', Some md, Some ps', Some b' => Some (EHttp {| e_method := m'; e_media := md; e_url := ps'; e_body := b' |} true)
-        | _, _, _, _ => None
+  | Some (t, [a1; a2; SL ps; a4; fr]) =>
+      (* the bytes the client sent and how it framed them: the model works out what the handler can
+         read ([StreamModel.delivered]) *)
+      if String.eqb t "http" then
+        match as_bytes a1, as_bytes a2, map_opt dec_pair ps, as_bytes a4,
+              (match untag fr with
+               | Some (ft, args) =>
+                   match map_opt as_N args with
+                   | Some ns =>
+                       if String.eqb ft "cl" then match ns with [n] => Some (ContentLength (N.to_nat n)) | _ => None end
+                       else if String.eqb ft "chunked" then Some (Chunked (map N.to_nat ns))
+                       else None
+                   | None => None
+                   end
+               | None => None
+               end) with
+        | Some m', Some md, Some ps', Some sent, Some f =>
+            let (b', early) := delivered f sent in
+            Some (EHttp {| e_method := m'; e_media := md; e_url := ps'; e_body := b' |} early)
+        | _, _, _, _, _ => None
         end
       else None
   | _ => None
@@ -278,8 +303,7 @@ Definition run_model (T : ntable) (e : env) : mres :=
   match e with
   | EHttp h early =>
       (* a POST whose branch reads the body to its end (both media types do) meets the read error: 400 *)
-      if early && bytes_eqb (e_method h) m_post && (bytes_eqb (e_media h) mt_json || bytes_eqb (e_media h) mt_graphql) then MReject 400
-      else match new_request_from_http fixed (tbl_parse StdJson T) h with
+      match new_request_from_stream false fixed (tbl_parse StdJson T) h early with
                | Accept r => MAccept (op_of_request r) (r_ext r)
                | Reject c => MReject c
                end
@@ -647,6 +671,7 @@ Definition check (c : sexp) : sexp :=
                                end
                            | _, _ => false
                            end) then v_bad "init-sequence-does-not-install-the-principal"
+                  else if negb (nums_agree T) then v_mismatch "number-conversion" []
                   else if negb (canonical_complete o is_sub subs) then v_bad "missing-canonical-transport"
                   else
                     let subs := map (refit T) subs in
